@@ -73,10 +73,8 @@ def keysH2a : List Key := [(.L1, .H, 2), (.L2, .H, 2), (.D0, .H, 2), (.B2, .H, 2
 def keysH2b : List Key := [(.L3, .H, 2)]
 def keysH3a : List Key := [(.L1, .H, 3), (.D0, .H, 3)]
 /-- 3-D tensor tables: samples through `tensor_table_correct`, gradient / Hessian identities by kernel evaluation -/
-def keysH3b : List Key := [(.L2, .H, 3), (.B2, .H, 3)]
+def keysH3b : List Key := [(.L2, .H, 3), (.B2, .H, 3), (.L3, .H, 3)]
 def keysH3 : List Key := keysH3a ++ keysH3b
-/-- tables with kernel-covered samples (through `tensor_table_correct`) but without a kernel-checked `gradOk` -/
-def sampleKeys : List Key := [(.L3, .H, 3)]
 /-- every table whose agreement with the samples of the real evaluator is checked by the Lean kernel
     (3-D hypercube tables of degree ≥ 2 are tensor products of the checked 1-D tables; their samples are covered through
     the generic `tensor_table_correct`) -/
@@ -92,6 +90,11 @@ def dualKeys2b : List Key := [(.L3, .H, 2)]
 def dualKeysS3 : List Key := [(.L1, .S, 3), (.L2, .S, 3), (.D0, .S, 3), (.D1, .S, 3), (.CR, .S, 3)]
 def dualKeysH3 : List Key := [(.L1, .H, 3), (.L2, .H, 3), (.D0, .H, 3)]
 def dualKeys3 : List Key := dualKeysS3 ++ dualKeysH3
+
+/-- the Hessian check restricted to the basis functions `is` (to split a long kernel evaluation over modules) -/
+def hessOkPart (t : FeatModel.Poly.BasisTab) (is : List Nat) : Bool :=
+  !t.hasHess || is.all fun i => (List.range t.nvars).all fun a => (List.range t.nvars).all fun b =>
+    FeatModel.Poly.equiv (t.hes i a b) (FeatModel.Poly.pderiv b (t.grad i a))
 
 def pouKeys : List Key :=
   [(.L1, .S, 2), (.L2, .S, 2), (.L3, .S, 2), (.D1, .S, 2), (.CR, .S, 2), (.L1, .S, 3), (.L2, .S, 3), (.D1, .S, 3),
